@@ -381,31 +381,65 @@ def r_operators(c):
                 "differently")
     if n < 5:
         raise AnalysisError(f"only {n} operator pairs found (floor 5)")
-    # _binary_op: the two broadcast calls differ exactly in the operand order
+    # _binary_op: finite abstract evaluation over reverse in {True, False}: the
+    # first two arguments that reach broadcast_binary_op are (other, self) when
+    # reverse is set and (self, other) otherwise; everything else is the same
     bo = ci.methods["_binary_op"]
-    calls = [x for x in ast.walk(bo) if isinstance(x, ast.Call)
-             and ast.unparse(x.func).endswith("broadcast_binary_op")]
     where = m.loc(ci.module, bo)
     other = bo.args.args[2].arg
-    ok = False
-    if len(calls) == 2:
-        a0, a1 = calls
-        rest = lambda x: ([ast.unparse(a) for a in x.args[2:]],
-                          sorted((k.arg, ast.unparse(k.value)) for k in x.keywords))
-        heads = {tuple(ast.unparse(a) for a in x.args[:2]) for x in calls}
-        ok = rest(a0) == rest(a1) and heads == {("self", other), (other, "self")}
-        # the swapped one is the one under `if reverse`
-        for x in calls:
-            p = x
-            while not isinstance(p, ast.If) and p is not bo:
-                p = p._parent
-            if isinstance(p, ast.If) and ast.unparse(p.test) == "reverse":
-                in_body = any(x in list(ast.walk(s_)) for s_ in p.body)
-                want = (other, "self") if in_body else ("self", other)
-                ok = ok and tuple(ast.unparse(a) for a in x.args[:2]) == want
+
+    def run(stmts, env, rev, out):
+        """tiny evaluator: Name -> symbol through (tuple) assignments, branching only
+        on `reverse` / `not reverse`; records the calls of broadcast_binary_op"""
+        def val(e):
+            if isinstance(e, ast.Name):
+                return env.get(e.id, e.id)
+            if isinstance(e, ast.IfExp) and ast.unparse(e.test) in ("reverse", "not reverse"):
+                t = rev if ast.unparse(e.test) == "reverse" else not rev
+                return val(e.body if t else e.orelse)
+            if isinstance(e, ast.Tuple):
+                return tuple(val(x) for x in e.elts)
+            return ast.unparse(e)
+        for st in stmts:
+            for x in ast.walk(st) if not isinstance(st, (ast.If, ast.For, ast.While)) else []:
+                if isinstance(x, ast.Call) and ast.unparse(x.func).endswith("broadcast_binary_op"):
+                    out.append((tuple(val(a) for a in x.args[:2]),
+                                [ast.unparse(a) for a in x.args[2:]],
+                                sorted((k.arg, ast.unparse(k.value)) for k in x.keywords)))
+            if isinstance(st, (ast.Assign, ast.AnnAssign)) and st.value is not None:
+                tg = st.targets[0] if isinstance(st, ast.Assign) else st.target
+                v = val(st.value)
+                if isinstance(tg, ast.Name):
+                    env[tg.id] = v
+                elif isinstance(tg, ast.Tuple) and isinstance(v, tuple) \
+                        and len(v) == len(tg.elts):
+                    for t, vv in zip(tg.elts, v):
+                        if isinstance(t, ast.Name):
+                            env[t.id] = vv
+            elif isinstance(st, ast.If):
+                t = ast.unparse(st.test)
+                if t in ("reverse", "not reverse"):
+                    take = rev if t == "reverse" else not rev
+                    run(st.body if take else st.orelse, env, rev, out)
+                else:
+                    # not about `reverse`: both arms must agree on what matters here
+                    run(st.body, dict(env), rev, out)
+                    run(st.orelse, dict(env), rev, out)
+    res = {}
+    for rev in (True, False):
+        out = []
+        run(bo.body, {}, rev, out)
+        res[rev] = out
+    ok = all(len(res[r]) >= 1 and len({repr(x) for x in res[r]}) == 1 for r in res) \
+        and res[True][0][0] == (other, "self") and res[False][0][0] == ("self", other) \
+        and res[True][0][1:] == res[False][0][1:]
+    calls = [x for x in ast.walk(bo) if isinstance(x, ast.Call)
+             and ast.unparse(x.func).endswith("broadcast_binary_op")]
     c.check(ok, "R03-OPERATORS", "Array._binary_op", "reverse-swaps-exactly-the-operands",
-            where, "the reversed and the direct broadcast_binary_op calls differ in more "
-            "(or less) than the order of the two operands")
+            where,
+            f"with reverse set broadcast_binary_op gets {res[True][0][0] if res[True] else None}, "
+            f"without {res[False][0][0] if res[False] else None} (expected ({other}, self) and "
+            f"(self, {other})), or the remaining arguments differ between the two cases")
     # every option of _binary_op reaches broadcast_binary_op
     for a in bo.args.args[3:]:
         if a.arg == "reverse":
